@@ -530,3 +530,48 @@ func TestVerif_C20_Independence(t *testing.T) {
 		}
 	}
 }
+
+// TestVerif_C20_CoefficientsPerByte: the polynomials of different secret bytes must be drawn independently. If two
+// bytes k and j of the secret were split with the same non-constant coefficients, every share i satisfies
+// share[i][k] ^ share[i][j] == secret[k] ^ secret[j]: one share alone then reveals a relation between secret bytes.
+// With independent coefficients this happens for all t shares at once with probability 256^-(t-1); the check is
+// applied for t >= 9 only (probability below 2^-64 per pair).
+func TestVerif_C20_CoefficientsPerByte(t *testing.T) {
+	rec := verifx.NewRecorder("C20", "coefficients-per-byte", "Split of random secrets of 33-160 bytes with thresholds 9..40 (half of them with t-1 dividing 256: 9, 17, 33, where a block-wise random source would wrap around) into t..t+3 shares; oracle: for no pair of secret byte positions k != j do all shares agree on share[k]^share[j] (which would mean the two polynomials share their non-constant coefficients, so that one share reveals secret[k]^secret[j]); non-trivial = every case")
+	defer rec.Flush()
+	rapid.Check(t, func(rt *rapid.T) {
+		th := rapid.SampledFrom([]int{9, 17, 33, 9, 17, 33, 10, 12, 16, 20, 31, 32, 34, 40}).Draw(rt, "threshold")
+		n := th + rapid.IntRange(0, 3).Draw(rt, "extraShares")
+		secret := rapid.SliceOfN(rapid.Byte(), 33, 160).Draw(rt, "secret")
+		shares, err := Split(secret, n, th)
+		if err != nil {
+			rt.Fatalf("harness: Split(%d bytes, %d, %d): %v", len(secret), n, th, err)
+		}
+		L := len(secret)
+		reused := 0
+		var first string
+		for k := 0; k < L; k++ {
+			for j := k + 1; j < L; j++ {
+				d := shares[0][k] ^ shares[0][j]
+				same := true
+				for i := 1; i < len(shares); i++ {
+					if shares[i][k]^shares[i][j] != d {
+						same = false
+						break
+					}
+				}
+				if same {
+					reused++
+					if first == "" {
+						first = fmt.Sprintf("bytes %d and %d: every one of the %d shares has share[%d]^share[%d] = %#02x = secret[%d]^secret[%d] (%#02x)", k, j, len(shares), k, j, d, k, j, secret[k]^secret[j])
+					}
+				}
+			}
+		}
+		rec.Case(fmt.Sprintf("t=%d", th), true, verifx.Digest(th, n, L, secret), func() any { return map[string]any{"threshold": th, "shares": n, "secret_len": L} })
+		if reused > 0 {
+			rec.Violation(rt, "coefficients-reused-across-secret-bytes", map[string]any{"threshold": th, "shares": n, "secret_len": L, "pairs": reused, "first": first},
+				"Split(%d bytes, n=%d, t=%d): %d pairs of secret bytes were split with the same polynomial coefficients, e.g. %s - a single share reveals the XOR of those secret bytes", L, n, th, reused, first)
+		}
+	})
+}
